@@ -29,6 +29,35 @@ OBLIG_FNS = {
 }
 
 
+def rule_sername(c, prog, d, R="C16.sername"):
+    """no two serialising canonical properties visible on one class share their serialized name"""
+    c.rule(R, "exhaustive over database.msgpack: on every class (own and inherited properties) the serialized names of the canonical properties that serialize are pairwise distinct. Two canonical properties written under one name become two columns / elements of the same name; the readers file both under whatever that name resolves to, so one of the two values is lost — and when the two sit on different instances of a class, the binary writer's default-filled cell of one column overwrites the explicit value of the other")
+    n = 0
+    reported = set()
+    for key in sorted(d.classes):
+        by = {}
+        for cname in d.chain(key):
+            for pk, p in d.classes[cname].props.items():
+                if p.kind != "Canonical":
+                    continue
+                if p.ser == "SerializesAs":
+                    by.setdefault(p.ser_as, set()).add((cname, pk))
+                elif p.ser == "Serializes":
+                    by.setdefault(pk, set()).add((cname, pk))
+        for sname, props in sorted(by.items()):
+            n += 1
+            if len(props) > 1:
+                owners = tuple(sorted(props))
+                if owners in reported:
+                    continue
+                reported.add(owners)
+                names = ", ".join(f"{a}.{b}" for a, b in owners)
+                c.violation(R, f"shared|{owners[0][0]}|{sname}", f"{names} are distinct canonical properties that are all written as `{sname}`: a file cannot tell them apart, the readers keep one value per instance, and across instances the binary writer's default-filled column of one overwrites the other's explicit values", "rbx_reflection_database/database.msgpack", instance=f"sername|{owners[0][0]}|{sname}")
+            else:
+                c.ok(R, None)
+    c.floor(R, n, 1000, "(class, serialized name) pairs examined")
+
+
 def rule_data(c, prog, d):
     R = "C16.data"
     c.rule(R, "exhaustive over database.msgpack: superclass chains resolve, are acyclic and rooted; alias targets are canonical properties of the same class; SerializesAs targets exist in the same class; Migrate targets resolve to a serialisable property; enums exist; value types are VariantTypes; defaults belong to a known property and have its canonical/serialized type (or a writer-accepted coercion); map keys equal names")
@@ -317,6 +346,32 @@ def rule_dflt(c, prog):
     else:
         c.ok(R, "dflt:decisions")
     c.floor(R, n_dec, 1, "decisions in find_default_property")
+    # order inside one step of the walk: the class's own defaults are consulted before the walk can end for want of a
+    # superclass — otherwise a default recorded on a root class (no superclass) is never found
+    from .C13 import sp_key
+    for lp in core.walk_fn(fn):
+        if lp.get("k") != "Loop":
+            continue
+        looks = [x for x in core.walk(lp) if is_lookup(x)]
+        if not looks:
+            continue
+        first_lookup = min(sp_key(x) for x in looks)
+        early = []
+        for x in core.walk(lp):
+            t = core.as_try(x)
+            if t is not None:
+                _r, pth = core.place_root(t)
+                if "superclass" in pth and sp_key(x) < first_lookup:
+                    early.append(x)
+            if x.get("k") in ("If", "Match") and sp_key(x) < first_lookup:
+                cnd = x.get("c") or x.get("e")
+                _r, pth = core.place_root(cnd.get("init") if core.strip(cnd).get("k") == "LetExpr" else cnd)
+                if "superclass" in pth and any(y.get("k") in ("Ret", "Break") for y in core.walk(x)):
+                    early.append(x)
+        if early:
+            c.violation(R, "dflt|root-skipped", "find_default_property leaves the walk when a class has no superclass *before* looking at that class's own defaults: a default recorded on a root class is never returned (with a custom database whose defaults live on the root, instances lacking the property are filled with a zeroed fallback)", core.loc(early[0]), instance="dflt:own-defaults-before-chain-end")
+        else:
+            c.ok(R, "dflt:own-defaults-before-chain-end")
 
 
 def rule_load(c, prog):
